@@ -300,7 +300,8 @@ def c08(lines, out):
                     told.setdefault(t[2], []).append(t[3])
             if t[0] == 'pill' and r.result == '0' and t[2] not in pend:      # (the first pending pill is the one that stops it)
                 pend[t[2]] = [p for p in told.get(t[2], []) if p not in got.get(t[2], set())]
-            if t[0] in ('stop', 'dereg', 'ctx_dereg', 'start') and r.dump:
+            if r.dump:
+                # (whatever call it was: a module seen outside RUNNING / PAUSED has lost its mailbox)
                 _, mods = parse_dump(r.dump)
                 for h, m in mods.items():
                     if m['state'] in ('S', 'Z', 'I'):
@@ -315,6 +316,9 @@ def c08(lines, out):
                 missing = [p for p in pend[h] if p not in got.get(h, set())]
                 if missing:
                     v.append(('pill_after_earlier', 'the pill stopped %s although %s, told to it before the pill, were never handed to it' % (h, ' '.join(missing))))
+            if cb in ('on_stop', 'on_start'):
+                # a stop destroys the mailbox, a start makes a new one: nothing told before is pending any more
+                told.pop(h, None); pend.pop(h, None)
                 pend.pop(h, None); told.pop(h, None)
     return v
 
@@ -427,6 +431,8 @@ def c16(lines, out):
             _, mods = parse_dump(r.dump)
             for h, m in mods.items():
                 if m['state'] in ('S', 'Z', 'I'):
+                    if m.get('stash', 0) != 0:
+                        v.append(('discarded_on_stop', '%s is not RUNNING or PAUSED and still holds %d stashed events' % (h, m['stash'])))
                     stash[h] = []
                 elif 'stash' in m and m['stash'] != len(stash.get(h, [])):
                     if m['stash'] != 0:   # empty: possibly a stop + restart inside a callback
@@ -564,6 +570,13 @@ def c03(lines, out):
     owner = {}
     ever = set()
     tm_live, tm_gone, tm_low, batching = set(), set(), set(), set()
+    # one-shot subscriptions: (module, user data) -> deliveries since the subscription was made; judged only when that user
+    # data value identifies the subscription among all the module ever made
+    os_count, ud_topics = {}, {}
+    for r in tr.recs:
+        t = r.op.split()
+        if t[0] == 'sub' and len(t) == 6:
+            ud_topics.setdefault((t[1], t[5]), set()).add((t[2], t[4]))
     last_state = {}
     quit_code = None
     for kind, inv, r in tr.events:
@@ -571,6 +584,10 @@ def c03(lines, out):
             cb, hd, h, stt, evs = parse_invoke(inv)
             if cb == 'on_evt' and r.op.split()[0] != 'unstash' and not any(x.op.split()[0] == 'stash' for x in tr.recs):
                 for k, f in evs:
+                    if k == 'ps' and (h, f[4]) in os_count and len(ud_topics.get((h, f[4]), ())) == 1:
+                        os_count[(h, f[4])] += 1
+                        if os_count[(h, f[4])] == 2:
+                            v.append(('oneshot_once', 'the one-shot subscription of %s with user data %s delivered a second message (%s on %s)' % (h, f[4], f[2], f[0])))
                     # (an event already received and waiting in the module's batch - low priority, batch size or batch
                     # timeout - is legitimately handed over after its source left: only immediate delivery is judged)
                     if k == 'tmr' and ('tmr', h, f[0]) in tm_gone and ('tmr', h, f[0]) not in tm_live \
@@ -591,6 +608,9 @@ def c03(lines, out):
             (tm_low.add if 'l' in t[3] else tm_low.discard)(('fd', str(100 + int(t[2][1:])) if 'd' in t[3] else t[2][1:]))
             if 'o' in t[3]: ever.discard(('fd', str(100 + int(t[2][1:])) if 'd' in t[3] else t[2][1:]))   # (a one-shot leaves by itself)
         if t[0] == 'dereg_fd' and r.result == '0': owner.pop(('fd', t[2][1:]), None)
+        if t[0] == 'sub' and len(t) == 6 and r.result == '0':
+            if t[4] == '1': os_count[(t[1], t[5])] = 0
+            else: os_count.pop((t[1], t[5]), None)
         if t[0] == 'reg_tmr' and r.result == '0':
             tm_live.add(('tmr', t[1], t[2])); tm_gone.discard(('tmr', t[1], t[2]))
             (tm_low.add if 'l' in t[3] else tm_low.discard)(('tmr', t[1], t[2]))
@@ -706,8 +726,29 @@ def c13(lines, out):
             _, mods = parse_dump(r.dump)
             if mods.get(t[1], {}).get('blen') == 'inf':
                 v.append(('default_immediate', '%s: neither a batch size nor a timeout is configured any more, yet events are still accumulated without bound' % r.op))
-    # descriptor events are always delivered at once: the batch that reports a descriptor of a RUNNING
-    # module is followed by a handler invocation carrying that descriptor before the call returns
+    for kind, inv, r in tr.events:
+        if kind != 'R':
+            continue
+        _, mods = parse_dump(r.dump) if r.dump else (None, {})
+        _, pm = parse_dump(r.prev_dump) if r.prev_dump else (None, {})
+        # events still accumulated when the module is stopped are discarded
+        for h, m in mods.items():
+            if m['state'] == 'S' and m.get('bq', 0) != 0:
+                v.append(('discarded_on_stop', '%s is STOPPED and still holds %d accumulated events' % (h, m['bq'])))
+        # descriptor events are always high priority: the poll batch that reports a descriptor of a RUNNING module is
+        # followed, before the call returns, by a handler invocation that carries it - whatever batching is configured
+        # (judged only when no callback of the call issued calls of its own)
+        if not r.nested:
+            for o in r.out:
+                if not o.startswith('BATCH '):
+                    continue
+                for e in o.split()[1:]:
+                    f = e.split(':')
+                    if f[0] == 'fd' and pm.get(f[1], {}).get('state') == 'R' and mods.get(f[1], {}).get('state') == 'R':
+                        got = any(parse_invoke(i)[0] == 'on_evt' and parse_invoke(i)[2] == f[1] and
+                                  any(k == 'fd' and x[0] == 'f' + f[2] for k, x in parse_invoke(i)[4]) for i in r.invokes)
+                        if not got:
+                            v.append(('fd_immediate', '%s: descriptor f%s of RUNNING module %s was reported ready, but its event was not handed over before the call returned' % (r.op, f[2], f[1])))
     return v
 
 
